@@ -5,7 +5,7 @@
 #  output: /verif/seeded/<Cxx>-<X>/ {patch.diff, demo_test.go, meta.json}
 set -u
 export GOFLAGS=-mod=mod GOPROXY=off GOSUMDB=off GOTOOLCHAIN=local
-P="$1"; X="$2"; TIER="${3:-quick}"
+P="$1"; X="$2"; TIER="${3:-quick}"; CHK="${CHECK_PROP:-$1}"
 V="$(cd "$(dirname "$0")/.." && pwd)"; IN="/tmp/wt/$P.out"
 [ -f "$IN/$X.diff" ] || { echo "no $IN/$X.diff"; exit 3; }
 M="$(mktemp -d /tmp/seeded.XXXXXX)"; trap 'rm -rf "$M"' EXIT
